@@ -7,7 +7,7 @@ python3 ../harness/mkprops.py C07 Props/headers/h07.txt \
   Proofs/MsProofs.v:sort_events_perm,sort_events_sorted,sort_events_id,to_ms_numbering,to_ms_refuses_linear,to_ms_refuses_multisource \
   Proofs/MsRates.v Proofs/SplitChain.v:ancestry_events_chain \
   Proofs/MsGrowth.v \
-  top:Proofs/SplitChain.v:chain_correct,chain_total,split_chain_moves > Props/C07.v
+  top:Proofs/SplitChain.v:chain_correct,chain_total,split_chain_moves top:Proofs/MsMoves.v:to_ms_moves_at,to_ms_moves > Props/C07.v
 python3 ../harness/mkprops.py C20 Props/headers/h20.txt \
   Proofs/CostProofs.v:search_cost_erases,search_cost_complete,search_cost_lower,ring_no_clique,ring_cost_lower,ring_cost_exponential \
   Proofs/StepsProofs.v > Props/C20.v
